@@ -249,7 +249,7 @@ func (p *parser) parseExpression(rbp int) Node {
 	}
 
 	t := p.token
-	p.advance(false)
+	p.advance(startsOperand(t.Type))
 
 	nud := p.lookupNud(t.Type)
 	if nud == nil {
@@ -278,6 +278,21 @@ func (p *parser) parseExpression(rbp int) Node {
 	}
 
 	return lhs
+}
+
+// startsOperand returns true for the prefix tokens that are
+// followed by an operand (an opening bracket or a prefix
+// operator). A forward slash after one of these starts a
+// regular expression. After any other prefix token (a name, a
+// literal, ...) the operand is complete and a forward slash is
+// the division operator.
+func startsOperand(tt tokenType) bool {
+	switch tt {
+	case typeParenOpen, typeBracketOpen, typeBraceOpen, typeMinus, typePipe:
+		return true
+	default:
+		return false
+	}
 }
 
 // advance requests the next token from the lexer and updates
